@@ -21,6 +21,27 @@
 (*        exactly those of an answered request (the observable effects of a   *)
 (*        request do not depend on whether its response is consumed).  The id *)
 (*        and the clock reading are read off the fill it has to leave.        *)
+(*   {"a":"burst","k":k,"reqs":[ {a,t,side,p,q,instr,kind,since,drop,        *)
+(*        out,why,id,filled,rt,echo,res} x k ],"post":{bal,open,trades,notif}} *)
+(*        k >= 2 requests that were QUEUED TOGETHER (every one sent before     *)
+(*        any answer was awaited - also before the exchange task was started), *)
+(*        their k answers in queue order, and ONE observation of the ledger    *)
+(*        and the notification history, made after the whole burst.  Accepted  *)
+(*        iff it is what the specification's own actions yield when applied    *)
+(*        in queue order (MockExchange::run takes the requests from a FIFO     *)
+(*        channel, one per loop iteration): the line is consumed in k steps    *)
+(*        of the checker, one `Serve` per request (sub-index `j`); the first   *)
+(*        k-1 are held against the answer only (accepted iff funded BY THE     *)
+(*        LEDGER THE EARLIER REQUESTS OF THE BURST LEFT, fresh id, clock, a    *)
+(*        query shows that intermediate ledger), the last one also against     *)
+(*        `post`: balances, fills and the notification history must be those   *)
+(*        of the k-fold composition - one balance and one trade notification   *)
+(*        PER accepted order of the burst, the balance notifications in queue  *)
+(*        order, each carrying the balance after THAT order.  The step         *)
+(*        formulas of C08 (Notif11, FreshIds, ...) hold on every one of the k  *)
+(*        steps (TProps).  Open: how the notifications of different kinds      *)
+(*        interleave within a burst (the projection re-pairs the j-th balance  *)
+(*        with the j-th trade notification).                                   *)
 (* Amounts are integers in 1/100 units, times in ms.                         *)
 (* A line that is not a step of the spec is recorded in `bad` together with  *)
 (* the names of the clauses of C08 it breaks (`why`), and the logged state   *)
@@ -30,8 +51,11 @@ EXTENDS MockExchange, Json, IOUtils
 
 Rec == ndJsonDeserialize(IOEnv.TRACE)
 
-VARIABLES l, bad, why
-tvars == <<vars, l, bad, why>>
+LOCAL INSTANCE SequencesExt
+
+VARIABLES l, j, skip, bad, why   \* j: the request of a burst line that is served next (1 otherwise)
+                                 \* skip: the burst was rejected at an earlier request, the rest is passed over
+tvars == <<vars, l, j, skip, bad, why>>
 
 BalOf(b) == [a \in Assets |-> [total |-> b[a].total, free |-> b[a].free]]
 SetOf(s) == {s[i] : i \in DOMAIN s}
@@ -54,7 +78,7 @@ Eff(x) == IF x.out # "lost" THEN x
 
 ResetResp == Resp([NoReq EXCEPT !.op = "Reset"], "init", "-", -1, 0)
 
-TInit == /\ l = 1 /\ bad = <<>> /\ why = <<>>
+TInit == /\ l = 1 /\ j = 1 /\ skip = FALSE /\ bad = <<>> /\ why = <<>>
          /\ fee = 0 /\ lat = 0 /\ bal = NoBal /\ orders = {} /\ up = TRUE /\ nextId = 0 /\ now = 0
          /\ trades = <<>> /\ notif = <<>>
          /\ last = Resp(NoReq, "init", "-", -1, 0)
@@ -70,38 +94,28 @@ Adopt(x) == /\ bal' = BalOf(x.post.bal)
             /\ trades' = x.post.trades
             /\ notif' = x.post.notif
 
+Single(x) == x.a # "Reset" /\ x.a # "burst"
+
 TReset == /\ Rec[l].a = "Reset"
+          /\ l' = l + 1 /\ j' = 1 /\ skip' = FALSE
           /\ fee' = Rec[l].fee /\ lat' = Rec[l].lat
           /\ Adopt(Rec[l])
           /\ up' = TRUE
           /\ nextId' = 0 /\ now' = 0 /\ last' = ResetResp /\ res' = NoRes
           /\ IF ResetOK(Rec[l]) THEN UNCHANGED <<bad, why>>
              ELSE /\ bad' = Append(bad, l)
-                  /\ why' = Append(why, [l |-> l, f |-> {"InitReflects"}])
+                  /\ why' = Append(why, [l |-> l, f |-> {"InitReflects"}, j |-> 0])
 
-(* The clauses of C08 on one logged line x, evaluated in the state before it. *)
-Checks(x) ==
+(* The clauses of C08 on one logged request x, evaluated in the state before it:  *)
+(* RespChecks needs the answer only, PostChecks also the ledger `p` observed after. *)
+RespChecks(x) ==
   LET r   == ReqOf(x)
       acc == x.out = "ok"
-      pb  == BalOf(x.post.bal)
-      pt  == x.post.trades
-      pn  == x.post.notif
-      n0  == Len(notif)
       queryOps == {"snapshot", "balances", "orders", "trades"}
   IN [ AcceptIff    |-> (r.op = "open" /\ up) => (x.out \in {"ok", "rej"} /\ (acc <=> Accepts(r))),
-       ExactDebit   |-> acc => (Listed(r) /\ pb = Debit(bal, Spent(r), Need(r))),
-       \* judged on the step that breaks it (the logged state is adopted afterwards)
-       NonNegative  |-> (\A a \in Assets : bal[a].free >= 0 /\ bal[a].total >= 0 /\ bal[a].total = bal[a].free)
-                          => (\A a \in Assets : pb[a].free >= 0 /\ pb[a].total >= 0 /\ pb[a].total = pb[a].free),
-       RejectPure   |-> ~acc => (pb = bal /\ pt = trades /\ pn = notif),
        FreshIds     |-> acc => x.id \in FreshIds,
-       OneFill      |-> acc => (x.filled = r.q /\ pt = Append(trades, Fill(x.id, r, x.rt))),
+       OneFill      |-> acc => x.filled = r.q,
        Clock        |-> acc => x.rt \in ClockChoices(r),
-       Notif11      |-> acc => ( /\ Len(pn) = n0 + 2 /\ SubSeq(pn, 1, n0) = notif
-                                 /\ pn[n0 + 1].k = "balance" /\ pn[n0 + 2].k = "trade" ),
-       NotifContent |-> (acc /\ Len(pn) = n0 + 2) =>
-                             ( /\ pn[n0 + 1] = BalNotif(Spent(r), pb[Spent(r)])
-                               /\ pn[n0 + 2] = FillNotif(Fill(x.id, r, x.rt)) ),
        QueriesReflect |-> /\ (r.op \in queryOps /\ up) <=> (x.out = "query")
                           /\ (r.op = "snapshot" /\ up) =>
                                 ( /\ BalOf(x.res.bal) = bal
@@ -119,17 +133,60 @@ Checks(x) ==
                         /\ (r.op = "cancel" /\ up) => x.out \in CancelOutcomes
                         /\ (r.op = "kill") <=> (x.out = "killed"),
        \* open / cancel responses carry the request's own key, side, price, quantity
-       Echo         |-> (r.op \in {"open", "cancel"}) => x.echo = 1,
-       OrdersUnchanged |-> SetOf(x.post.open) = orders ]
+       Echo         |-> (r.op \in {"open", "cancel"}) => x.echo = 1 ]
 
-Failing(y) == LET x == Eff(y) IN {n \in DOMAIN Checks(x) : ~Checks(x)[n]}
+PostChecks(x, p) ==
+  LET r   == ReqOf(x)
+      acc == x.out = "ok"
+      pb  == BalOf(p.bal)
+      pt  == p.trades
+      pn  == p.notif
+      n0  == Len(notif)
+  IN [ ExactDebit   |-> acc => (Listed(r) /\ pb = Debit(bal, Spent(r), Need(r))),
+       \* judged on the step that breaks it (the logged state is adopted afterwards)
+       NonNegative  |-> (\A a \in Assets : bal[a].free >= 0 /\ bal[a].total >= 0 /\ bal[a].total = bal[a].free)
+                          => (\A a \in Assets : pb[a].free >= 0 /\ pb[a].total >= 0 /\ pb[a].total = pb[a].free),
+       RejectPure   |-> ~acc => (pb = bal /\ pt = trades /\ pn = notif),
+       OneFill      |-> acc => pt = Append(trades, Fill(x.id, r, x.rt)),
+       Notif11      |-> acc => ( /\ Len(pn) = n0 + 2 /\ SubSeq(pn, 1, n0) = notif
+                                 /\ pn[n0 + 1].k = "balance" /\ pn[n0 + 2].k = "trade" ),
+       NotifContent |-> (acc /\ Len(pn) = n0 + 2) =>
+                             ( /\ pn[n0 + 1] = BalNotif(Spent(r), pb[Spent(r)])
+                               /\ pn[n0 + 2] = FillNotif(Fill(x.id, r, x.rt)) ),
+       OrdersUnchanged |-> SetOf(p.open) = orders ]
+
+(* The last request x of a burst against the one observation p made after the burst: the state  *)
+(* before it is the one the specification reached through the earlier requests of the burst, so *)
+(* p must be exactly what MockExchange!Accept (AfterBal, AfterTrades, AfterNotif) / a rejection *)
+(* or query (nothing) makes of it.  The clauses name WHAT differs of the k-fold composition.    *)
+BurstChecks(x, p) ==
+  LET r   == ReqOf(x)
+      acc == x.out = "ok"
+      pb  == BalOf(p.bal)
+      pn  == p.notif
+      eb  == IF acc THEN AfterBal(r) ELSE bal
+      et  == IF acc THEN AfterTrades(r, x.id, x.rt) ELSE trades
+      en  == IF acc THEN AfterNotif(r, x.id, x.rt) ELSE notif
+  IN [ BurstLedger  |-> pb = eb,
+       BurstFills   |-> p.trades = et,
+       NonNegative  |-> \A a \in Assets : pb[a].free >= 0 /\ pb[a].total >= 0 /\ pb[a].total = pb[a].free,
+       \* one balance and one trade notification per accepted order of the burst, nothing else
+       Notif11      |-> Len(pn) = Len(en) /\ \A i \in 1..Len(pn) : pn[i].k = en[i].k,
+       \* ... in queue order, the balance notification carrying the balance after THAT order
+       NotifContent |-> (Len(pn) = Len(en) /\ \A i \in 1..Len(pn) : pn[i].k = en[i].k) => pn = en,
+       OrdersUnchanged |-> SetOf(p.open) = orders ]
+
+FailingOf(c) == {n \in DOMAIN c : ~c[n]}
+Failing(y) == LET x == Eff(y) IN FailingOf(RespChecks(x)) \cup FailingOf(PostChecks(x, x.post))
 StepOK(x)  == Failing(x) = {}
 
 \* what the log shows of the step, against the spec's own action
-Observed(x) == /\ bal' = BalOf(x.post.bal)
-               /\ orders' = SetOf(x.post.open)
-               /\ trades' = x.post.trades
-               /\ notif' = x.post.notif
+ObservedPost(p) == /\ bal' = BalOf(p.bal)
+                   /\ orders' = SetOf(p.open)
+                   /\ trades' = p.trades
+                   /\ notif' = p.notif
+
+ObservedResp(x) ==
                /\ last'.out = x.out
                /\ (x.out = "ok" => last'.id = x.id /\ last'.filled = x.filled)
                /\ ((x.a = "snapshot" /\ x.out = "query") => res'.bal = BalOf(x.res.bal) /\ res'.open = SetOf(x.res.open))
@@ -137,13 +194,17 @@ Observed(x) == /\ bal' = BalOf(x.post.bal)
                /\ ((x.a = "orders"   /\ x.out = "query") => res'.open = SetOf(x.res.open))
                /\ ((x.a = "trades"   /\ x.out = "query") => SameFills(res'.trades, x.res.trades))
 
-TStepOK == /\ Rec[l].a # "Reset"
+Observed(x) == ObservedPost(x.post) /\ ObservedResp(x)
+
+TStepOK == /\ Single(Rec[l])
+           /\ l' = l + 1 /\ j' = 1 /\ skip' = FALSE
            /\ StepOK(Rec[l])
            /\ Serve(ReqOf(Rec[l]), Eff(Rec[l]).id, ClockOf(Eff(Rec[l])), Rec[l].out)   \* the spec's own action
            /\ Observed(Eff(Rec[l]))
            /\ UNCHANGED <<bad, why>>
 
-TStepBad == /\ Rec[l].a # "Reset"
+TStepBad == /\ Single(Rec[l])
+            /\ l' = l + 1 /\ j' = 1 /\ skip' = FALSE
             /\ ~StepOK(Rec[l])
             /\ Adopt(Rec[l])
             /\ LET e == Eff(Rec[l]) IN
@@ -154,19 +215,72 @@ TStepBad == /\ Rec[l].a # "Reset"
             /\ up' = IF Rec[l].a = "kill" \/ (Rec[l].out = "offline" /\ Rec[l].a # "cancel") THEN FALSE ELSE up
             /\ UNCHANGED world
             /\ bad' = Append(bad, l)
-            /\ why' = Append(why, [l |-> l, f |-> Failing(Rec[l])])
+            /\ why' = Append(why, [l |-> l, f |-> Failing(Rec[l]), j |-> 0])
+
+(* ---- a burst line: one checker step per request, the spec's own action every time ---- *)
+Item       == Rec[l].reqs[j]
+BurstLen   == Len(Rec[l].reqs)
+BurstFailing == IF j < BurstLen THEN FailingOf(RespChecks(Item))
+                ELSE FailingOf(RespChecks(Item)) \cup FailingOf(BurstChecks(Item, Rec[l].post))
+
+\* a request of the burst that is not the last: judged by its answer; the ledger it leaves is
+\* the specification's (nobody observed it)
+TBurstMid == /\ Rec[l].a = "burst" /\ j < BurstLen /\ ~skip
+             /\ BurstFailing = {}
+             /\ Serve(ReqOf(Item), Item.id, ClockOf(Item), Item.out)
+             /\ ObservedResp(Item)
+             /\ l' = l /\ j' = j + 1 /\ skip' = FALSE
+             /\ UNCHANGED <<bad, why>>
+
+\* the last one: the observation made after the burst must be the specification's state
+TBurstLast == /\ Rec[l].a = "burst" /\ j = BurstLen /\ ~skip
+              /\ BurstFailing = {}
+              /\ Serve(ReqOf(Item), Item.id, ClockOf(Item), Item.out)
+              /\ ObservedPost(Rec[l].post) /\ ObservedResp(Item)
+              /\ l' = l + 1 /\ j' = 1 /\ skip' = FALSE
+              /\ UNCHANGED <<bad, why>>
+
+\* the burst is not what the specification allows (noticed at its j-th request): recorded, the
+\* observation is adopted, the rest of the burst is not judged (passed over one request per step,
+\* so that every line takes as many steps as it has requests)
+TBurstBad == /\ Rec[l].a = "burst" /\ ~skip
+             /\ BurstFailing # {}
+             /\ Adopt(Rec[l])
+             /\ LET its  == Rec[l].reqs
+                     oks  == {its[i].id : i \in {i \in DOMAIN its : its[i].out = "ok"}}
+                     e    == its[BurstLen]
+                 IN /\ nextId' = IF \E i \in oks : i >= nextId THEN 1 + CHOOSE i \in oks : \A k \in oks : k <= i ELSE nextId
+                    /\ last' = Resp(ReqOf(e), e.out, "-", e.id, e.filled)
+                    /\ up' = IF \E i \in DOMAIN its : its[i].out = "offline" /\ its[i].a # "cancel" THEN FALSE ELSE up
+             /\ now' = now /\ res' = NoRes
+             /\ UNCHANGED world
+             /\ IF j < BurstLen THEN l' = l /\ j' = j + 1 /\ skip' = TRUE
+                               ELSE l' = l + 1 /\ j' = 1 /\ skip' = FALSE
+             /\ bad' = Append(bad, l)
+             /\ why' = Append(why, [l |-> l, f |-> BurstFailing, j |-> j])
+
+TBurstSkip == /\ Rec[l].a = "burst" /\ skip
+              /\ IF j < BurstLen THEN l' = l /\ j' = j + 1 /\ skip' = TRUE
+                                ELSE l' = l + 1 /\ j' = 1 /\ skip' = FALSE
+              /\ UNCHANGED <<vars, bad, why>>
 
 TNext == /\ l <= Len(Rec)
-         /\ l' = l + 1
-         /\ (TReset \/ TStepOK \/ TStepBad)
+         /\ (TReset \/ TStepOK \/ TStepBad \/ TBurstMid \/ TBurstLast \/ TBurstBad \/ TBurstSkip)
 
 TSpec == TInit /\ [][TNext]_tvars
 
 \* the C08 formulas, evaluated on every accepted step of the implementation
-TProps == [][last'.req.op = "Reset" \/ bad' # bad \/ StepProps]_tvars
+TProps == [][last'.req.op = "Reset" \/ bad' # bad \/ skip \/ StepProps]_tvars
 
 Done == l = Len(Rec) + 1 =>
           /\ PrintT(<<"TRACE_END", ToJson(bad)>>)
           /\ ndJsonSerialize(IOEnv.TRACE \o ".why", why)
-Post == PrintT(<<"TRACE_DONE", TLCGet("stats").diameter, Len(Rec)>>)
+\* a burst line takes as many steps as it has requests: the depth reached, counted in LINES
+\* (1 + the number of lines consumed completely by d - 1 steps)
+StepsOf(x) == IF x.a = "burst" THEN Len(x.reqs) ELSE 1
+LineOf(d)  == 1 + FoldLeft(LAMBDA acc, x : IF acc.c + StepsOf(x) <= d - 1
+                                           THEN [c |-> acc.c + StepsOf(x), n |-> acc.n + 1]
+                                           ELSE [c |-> d, n |-> acc.n],
+                           [c |-> 0, n |-> 0], Rec).n
+Post == PrintT(<<"TRACE_DONE", LineOf(TLCGet("stats").diameter), Len(Rec)>>)
 =============================================================================
